@@ -425,6 +425,9 @@ class Body:
         if op["k"] == "const":
             if "fn" in op:
                 return ("fnconst", op["fn"])
+            if "pvi" in op:
+                # promoted `&Enum::UnitVariant`: the same role as the aggregate written out
+                return ("agg", "%s::%s" % (op["padt"], op["pvariant"]), [], [])
             return ("const", op.get("text"))
         pl = op_place(op)
         if pl is None:
@@ -801,9 +804,9 @@ class Crate:
                 self.by_name[b.name].append(b)
         self._link_closures()
         self.aliases = {}
+        self.adts = {a["path"]: a for a in j["adts"]}
         if use_anchors and self.name == "slotted_egraphs":
             self._inject_aliases()
-        self.adts = {a["path"]: a for a in j["adts"]}
         self.impls = j["impls"]
         self.statics = j["statics"]
         self.unsafe = j["unsafe"]
@@ -838,6 +841,26 @@ class Crate:
                 # moved to another file of the crate (free function -> method of the type it works on, new submodule ..)
                 allknown = set().union(*known.values()) if known else set()
                 cands = [b for bs2 in by_file.values() for b in bs2 if b.name not in allknown and same_sig_unordered(b)]
+            if not cands:
+                # free function -> method of a private context struct that bundles the e-graph reference
+                # (`fn ematch_impl(p, st, i, eg)` -> `Matcher { eg }.match_pattern(p, st, i)`): the `&EGraph` parameter is
+                # replaced by a reference to a struct of this crate that has a field of that type
+                eg_params = [t for t in sig[:-2] if t.startswith("&") and "egraph::EGraph<" in t]
+                if len(eg_params) == 1:
+                    rest = sorted(t for t in sig[:-2] if t is not eg_params[0])
+                    def ctx_struct(t):
+                        if not t.startswith("&"):
+                            return False
+                        path = re.sub(r"<.*$", "", t.lstrip("&").replace("mut ", "").strip())
+                        a = self.adts.get(path)
+                        return a is not None and any("egraph::EGraph<" in f["ty"] for v in a["variants"] for f in v["fields"])
+                    for b in bs:
+                        if b.name in known[f]:
+                            continue
+                        tys = [b.local_ty(l) for l in range(1, b.argc + 1)]
+                        cx = [t for t in tys if ctx_struct(t)]
+                        if len(cx) == 1 and sorted(t for t in tys if t is not cx[0]) == rest and b.local_ty(0) == sig[-1]:
+                            cands.append(b)
             if len(cands) == 1:
                 self.by_name[n].append(cands[0])
                 self.aliases[cands[0].id] = n
@@ -1302,6 +1325,8 @@ def enum_eval(body, args, max_steps=500):
             return rd_place(op["pl"])
         if op["k"] == "const" and "int" in op:
             return int(op["int"])
+        if op["k"] == "const" and "pvi" in op:
+            return int(op["pvi"])
         raise EvalStuck("operand %r" % (op,))
 
     bb = 0
@@ -1343,6 +1368,17 @@ def enum_eval(body, args, max_steps=500):
             return env.get(0)
         elif t["k"] == "unreachable":
             raise EvalStuck("reached unreachable")
+        elif t["k"] == "call" and t.get("target") is not None and not t["dest"]["p"]:
+            # `a == Variant` on a field-less enum: the derived PartialEq compares discriminants
+            cal = Callee(t["func"])
+            if cal.name in ("eq", "ne") and (cal.trait or "").endswith("cmp::PartialEq") and len(t["args"]) == 2:
+                a, b2 = rd_op(t["args"][0]), rd_op(t["args"][1])
+                if not (isinstance(a, int) and isinstance(b2, int)):
+                    raise EvalStuck("comparison of non-enum values")
+                env[t["dest"]["l"]] = int((a == b2) == (cal.name == "eq"))
+                bb = t["target"]
+            else:
+                raise EvalStuck("call to " + str(cal.name))
         else:
             raise EvalStuck("terminator " + t["k"])
     raise EvalStuck("too many steps")
